@@ -162,6 +162,9 @@ def one_setup(chk, drv, it, stats):
         # poloidal sizes for which (k * (1/n)) * n is not exactly k for some mode number k (fftfreq gives exact integers there)
         nth = rng.choice([14, 17, 18])
         nz = 1
+    if it % 10 == 3:
+        # many theta lines on one process: (radial points) x (z planes) a round number (transforms done in blocks of lines)
+        d, nr, nth, nz = 3, [20, 25, 20][it // 10 % 3], [8, 6, 5][it // 10 % 3], [5, 8, 10][it // 10 % 3]
     cfg = {'qdeg': rng.choice([2 * d, 2 * d + 1, 7, 6, 3]), 'adiabatic': adiabatic, 'chi': chi,
            'B': rng.choice([1.0, 1.0, 2.0]), 'dens_degree': rng.choice([3, 6]), 'custom_profiles': rng.random() < 0.3}
     rrange = rng.choice([(0.1, 14.5), (1.0, 3.0), (2.0, 9.0)])
@@ -189,6 +192,8 @@ def one_setup(chk, drv, it, stats):
         from_f = True              # the density comes from a distribution function: the equilibrium table is built with the off-centre rp
         if it % 8 == 1:
             kind = 'equilibrium'   # ... and the equilibrium of THESE constants is a fixed point
+    if it % 6 == 2 and it % 4 != 1:
+        kind, from_f = 'random', False          # a complex density given directly (see below)
     if it % 5 == 4:
         # a line source on the first theta point, the same on every z plane: ALL poloidal modes of the density are equal (and the
         # slices of consecutive modes on one process hold exactly the same numbers)
@@ -216,6 +221,10 @@ def one_setup(chk, drv, it, stats):
             rho0[:, 0, :] = nprng.uniform(0.5, 1, size=(nr, 1))
         else:
             rho0 = nprng.uniform(-1, 1, size=(nr, nth, nz))
+            if it % 6 == 2:
+                # the density grid is complex: two real densities packed as rho1 + i rho2 give phi1 + i phi2 (the solve is linear);
+                # the modes m and -m of such a density are NOT conjugates of each other
+                rho0 = rho0 + 1j * nprng.uniform(-1, 1, size=(nr, nth, nz))
     desc0 = {'npts': [nr, nth, nz, nv], 'rdegree': d, 'uniform_flag': uniform_flag, 'from_f': from_f, 'kind': kind,
              'rrange': list(rrange), **cfg}
 
